@@ -341,7 +341,7 @@ func init() {
 					w.Nontrivial(h)
 				}
 				w.Extra("cases_"+c.Kind, 1)
-				if w.Evals%20011 == 0 {
+				if w.Evals%20011 == 1 {
 					w.Sample(c)
 				}
 				if sig != "" {
